@@ -7,8 +7,19 @@ Decides from the syntax tree / CFG of hailtop/aiotools/weighted_semaphore.py and
   R2 pairing     _AcquireManager acquires and releases the same stored weight, releases unconditionally on exit;
                  every use of the transfer semaphore in copier.py is `async with ....acquire_manager(w)` (or construction / hand-over)
   R3 cancellation every `await` that follows the registration of a waiter (`self.events.add`) has, on its CancelledError exit,
-                 a clean-up that deregisters the waiter and hands back a weight that was already granted
+                 a clean-up that deregisters the waiter and hands back a weight that was already granted; the deregistration takes the
+                 cancelled waiter's OWN entry out (removal by the registered entry, not by position / by a rebuilt element) and, since
+                 remove/discard find it by ==, the entries of two different waiters cannot compare equal (derived from what is registered:
+                 tuple / NamedTuple / dataclass eq=, field(compare=False) / plain class with or without __eq__, see engines/c40facts.py);
+                 the hand-back runs only when the event is set and returns the waiter's weight
   R4 precondition weights requested in copier.py are bounded by the capacity the semaphore is built with
+  R5 reachability of the clean-up: every `X.acquire(w)` coroutine (manager classes/generators of both files, manual sites) is awaited
+                 directly by the task that wants the weight; handed to ensure_future / create_task / shield it runs outside that task, a
+                 cancellation of the waiter never reaches acquire's clean-up (violation unless every later await cancels the inner task ->
+                 declined)
+The copier closure follows the semaphore through constructors/functions of copier.py and the attributes it is stored in; a context-manager
+class or @asynccontextmanager function of copier.py that wraps the semaphore is analysed with the same obligations as _AcquireManager (R2, R5)
+and its `async with` sites feed R4.
 Does not decide: fairness/starvation of large requests (the waiter list is ordered by weight by design), schedules as such.
 """
 from __future__ import annotations
@@ -18,6 +29,7 @@ from fractions import Fraction
 from typing import List, Optional
 
 from engines import asyncfacts as af
+from engines import c40facts as cf
 from engines import pyfacts as pf
 from engines.common import AnalysisError, Ctx
 
@@ -29,7 +41,7 @@ META = dict(
          'waiter registration (which handlers/finally blocks run when it raises CancelledError).  Not a proof over interleavings.',
     note='Trusted: CPython ast; engines/pyfacts CFG; asyncio switches only at await; Task.cancel raises CancelledError at the pending await. '
          'Not decided: starvation, SortedKeyList semantics beyond add/[0]/pop(0).',
-    technique='static analysis: CFG guard dominance + await-atomicity + cancellation-exit analysis + use-site closure',
+    technique='static analysis: CFG guard dominance + await-atomicity + cancellation-exit analysis + derived equality of the waiter entry + use-site closure through hand-overs',
     design_ref='DESIGN.md §3 C40, §4 F3',
 )
 
@@ -47,7 +59,56 @@ def _strip_cast(e: ast.AST) -> ast.AST:
     return e
 
 
-def _release(ctx: Ctx, m: pf.Module, cls: ast.ClassDef, guards: List[af.Guarded], layout: Optional[List[str]]) -> None:
+def _resolve_local(fn: pf.FuncDef, e: ast.AST) -> ast.AST:
+    """Follow single-definition locals and `cast(T, x)` wrappers."""
+    for _ in range(4):
+        e2 = _strip_cast(pf.resolve_expr(fn, _strip_cast(e)))
+        if e2 is e:
+            break
+        e = e2
+    return e
+
+
+def _wake_loop(ctx: Ctx, m: pf.Module, cls: ast.ClassDef) -> af.WakeLoop:
+    """af.wake_loop (head read by tuple unpacking) or the record form `X = events[0]` with the components read as `X.<field>`."""
+    try:
+        return af.wake_loop(m, cls, 'release', VAL, EV)
+    except af.FitNotOnValue:
+        raise
+    except AnalysisError as first:
+        fn = af.method(m, cls, 'release')
+        ev = af.TestEval('?', '?', [EV])
+        cands = []
+        for n in pf.walk_shallow(fn):
+            if isinstance(n, (ast.While, ast.If)) and af.mentions(n.test, EV):
+                try:
+                    rows = ev.rows(n.test)
+                except AnalysisError:
+                    continue
+                if all(r[2] == r[1][EV] for r in rows):
+                    cands.append(n)
+        if len(cands) != 1:
+            raise first
+        heads = []
+        for s_ in cands[0].body:
+            tgt = s_.targets[0] if isinstance(s_, ast.Assign) and len(s_.targets) == 1 else s_.target if isinstance(s_, ast.AnnAssign) else None
+            val = getattr(s_, 'value', None)
+            if isinstance(tgt, ast.Name) and isinstance(val, ast.Subscript) and pf.nsrc(val.value) == EV:
+                heads.append(s_)
+        fits = [s_ for s_ in ast.walk(cands[0]) if isinstance(s_, ast.If) and s_ is not cands[0] and af.mentions(s_.test, VAL)]
+        if len(heads) != 1 or len(fits) != 1:
+            raise first
+        wl = af.WakeLoop()
+        wl.fn, wl.cfg, wl.stmt, wl.is_loop = fn, pf.cfg(fn), cands[0], isinstance(cands[0], ast.While)
+        wl.head = heads[0]  # type: ignore[assignment]
+        X = (heads[0].targets[0] if isinstance(heads[0], ast.Assign) else heads[0].target).id  # type: ignore[union-attr]
+        ctx.need(len(pf.assignments(fn).get(X, [])) == 1, f'{CLS}.release: `{X}` (head of the waiter list) is bound more than once')
+        wl.names = [X]
+        wl.fit = fits[0]
+        return wl
+
+
+def _release(ctx: Ctx, m: pf.Module, cls: ast.ClassDef, guards: List[af.Guarded], entry: Optional[cf.Entry]) -> None:
     qn = f'{CLS}.release'
     fn = af.method(m, cls, 'release')
     ctx.need(isinstance(fn, ast.FunctionDef), f'{qn} is a coroutine: its wake-up loop is no longer atomic')
@@ -55,7 +116,8 @@ def _release(ctx: Ctx, m: pf.Module, cls: ast.ClassDef, guards: List[af.Guarded]
     params = [a.arg for a in fn.args.args]
     ctx.need(len(params) == 2, f'release parameters changed: {params}')
     w = params[1]
-    wl = af.wake_loop(m, cls, 'release', VAL, EV)
+    wl = _wake_loop(ctx, m, cls)
+    record = len(wl.names) == 1
     ctx.need(pf.nsrc(wl.head.value.slice) == '0', f'{qn}: waiter examined is `{pf.nsrc(wl.head.value)}`, not the first of the list')  # type: ignore[union-attr]
     L = af.test_node(cfg, wl.stmt.test)  # type: ignore[union-attr]
     incs = af.stmt_nodes(cfg, lambda n: isinstance(n.ast, ast.AugAssign) and isinstance(n.ast.op, ast.Add) and pf.nsrc(n.ast.target) == VAL)
@@ -72,20 +134,55 @@ def _release(ctx: Ctx, m: pf.Module, cls: ast.ClassDef, guards: List[af.Guarded]
         return
     g = gs[0]
     ctx.need(g.test.ast is wl.fit.test, f'{qn}: the decrement is not guarded by the fit test of the wake loop')  # type: ignore[union-attr]
-    ctx.need(g.w in wl.names and len(wl.names) == 2, f'{qn}: decrements `{g.w}`, which is not read from the head of the waiter list')
-    # the names read from the head may only be re-bound to themselves (cast)
-    for nme in wl.names:
-        for d in pf.assignments(fn).get(nme, []):
-            if d is wl.head:
-                continue
-            ctx.need(isinstance(d, ast.expr) and pf.nsrc(_strip_cast(d)) == nme, f'{qn}: `{nme}` is re-bound to `{pf.nsrc(d)}` inside release')
-    widx = wl.names.index(g.w)
-    evname = wl.names[1 - widx]
-    reader = ['weight' if i == widx else 'event' for i in range(2)]
-    if layout is not None:
-        ctx.check(reader == layout, 'R1', f'{F}::{CLS}::waiter element layout',
-                  f'acquire registers ({", ".join(layout)}) but release unpacks the head as ({", ".join(reader)}): the weight charged is not the waiter\'s',
-                  m.path, wl.head.lineno)  # type: ignore[union-attr]
+    setcalls = [c for c in ast.walk(wl.stmt) if isinstance(c, ast.Call) and isinstance(c.func, ast.Attribute) and c.func.attr == 'set' and not c.args]  # type: ignore[arg-type]
+    if record:
+        X = wl.names[0]
+        charged = _resolve_local(fn, g.dec.ast.value)  # type: ignore[union-attr]
+        ctx.need(isinstance(charged, ast.Attribute) and isinstance(charged.value, ast.Name) and charged.value.id == X,
+                 f'{qn}: decrements `{g.w}`, which is not read from the head `{X}` of the waiter list')
+        evs = {}
+        for c in setcalls:
+            r = _resolve_local(fn, c.func.value)  # type: ignore[attr-defined]
+            if isinstance(r, ast.Attribute) and isinstance(r.value, ast.Name) and r.value.id == X:
+                evs[pf.nsrc(c.func.value)] = r.attr  # type: ignore[attr-defined]
+        ctx.need(len(evs) <= 1, f'{qn}: several events of the head waiter are set: {sorted(evs)}')
+        evname = next(iter(evs), f'{X}.<event>')
+        wattr, eattr = charged.attr, next(iter(evs.values()), None)  # type: ignore[union-attr]
+        if entry is not None:
+            ctx.need(entry.form == 'record', f'{qn}: reads the head as a record `{X}.{wattr}` but acquire registers a tuple')
+            for attr, role in ((wattr, 'weight'), (eattr, 'event')):
+                if attr is None:
+                    continue
+                got = entry.by_attr.get(attr)
+                ctx.need(got is not None, f'{qn}: `{X}.{attr}` is not a field of the registered {entry.rec.cls.name}')  # type: ignore[union-attr]
+                ctx.check(got == role, 'R1', f'{F}::{CLS}::waiter element layout' + ('' if role == 'weight' else '::event'),
+                          f'acquire registers {entry.layout()} but release uses `{X}.{attr}` as the {role}: '
+                          + ('the weight charged is not the waiter\'s' if role == 'weight' else 'the event set is not the one the waiter waits on'),
+                          m.path, wl.head.lineno)  # type: ignore[union-attr]
+    else:
+        ctx.need(g.w in wl.names and len(wl.names) >= 2, f'{qn}: decrements `{g.w}`, which is not read from the head of the waiter list')
+        # the names read from the head may only be re-bound to themselves (cast)
+        for nme in wl.names:
+            for d in pf.assignments(fn).get(nme, []):
+                if d is wl.head:
+                    continue
+                ctx.need(isinstance(d, ast.expr) and pf.nsrc(_strip_cast(d)) == nme, f'{qn}: `{nme}` is re-bound to `{pf.nsrc(d)}` inside release')
+        widx = wl.names.index(g.w)
+        cand = [pf.nsrc(c.func.value) for c in setcalls if pf.nsrc(c.func.value) in wl.names and pf.nsrc(c.func.value) != g.w]  # type: ignore[attr-defined]
+        if cand:
+            evname = cand[0]
+        else:
+            ctx.need(len(wl.names) == 2, f'{qn}: cannot tell which component of the head is the event')
+            evname = wl.names[1 - widx]
+        eidx = wl.names.index(evname)
+        reader = ['weight' if i == widx else 'event' if i == eidx else 'other' for i in range(len(wl.names))]
+        if entry is not None:
+            ctx.need(entry.by_index is not None, f'{qn}: unpacks the head as a tuple but acquire registers a {entry.rec.cls.name if entry.rec else "?"} record')
+            layout = entry.by_index or []
+            same = layout == reader
+            ctx.check(same, 'R1', f'{F}::{CLS}::waiter element layout',
+                      f'acquire registers ({", ".join(layout)}) but release unpacks the head as ({", ".join(reader)}): the weight charged is not the waiter\'s',
+                      m.path, wl.head.lineno)  # type: ignore[union-attr]
     # wake = set + remove head + decrement on every path where the head fits
     cons = f'{F}::{qn}::wake'
     setn = af.stmt_nodes(cfg, lambda n: af.node_is_call(n, f'{evname}.set') is not None)
@@ -109,7 +206,99 @@ def _release(ctx: Ctx, m: pf.Module, cls: ast.ClassDef, guards: List[af.Guarded]
         ctx.check(p is None and only, 'R1', c2, f'{what} is not performed exactly on the paths where the head fits: {why[what]}', m.path, nodes[0].lineno)
 
 
-def _acquire(ctx: Ctx, m: pf.Module, cls: ast.ClassDef, guards: List[af.Guarded]) -> Optional[List[str]]:
+def _build_entry(ctx: Ctx, m: pf.Module, fn: pf.FuncDef, arg: ast.AST, w: str, awaited: List[str]) -> cf.Entry:
+    """What acquire registers: component roles (weight / event / other), how each component behaves under == and whether the entries of two
+    different acquire calls can compare equal."""
+    qn = f'{CLS}.acquire'
+    en = cf.Entry()
+    en.var = arg.id if isinstance(arg, ast.Name) else None
+    e = pf.resolve_expr(fn, arg)
+    en.expr = e
+    comps: List[tuple] = []   # (accessor, text used in acquire, kind, compared)
+    if isinstance(e, ast.Tuple):
+        ctx.need(len(e.elts) >= 2 and all(isinstance(x, ast.Name) for x in e.elts), f'{qn}: registered element is not a tuple of names')
+        for i, x in enumerate(e.elts):
+            kind = 'value' if x.id == w else cf.eq_kind(m, pf.resolve_expr(fn, x), [w])  # type: ignore[attr-defined]
+            comps.append((i, x.id, kind, True))  # type: ignore[attr-defined]
+        en.form = 'tuple'
+        eq_src = 'tuple equality over (' + ', '.join(c[1] for c in comps) + ')'
+        ident = False
+    else:
+        lc = cf.local_class(m, e.func) if isinstance(e, ast.Call) else None
+        ctx.need(lc is not None, f'{qn}: registered element `{pf.nsrc(e)}` is neither a tuple of names nor an instance of a class of this module')
+        ctx.need(en.var is not None, f'{qn}: the registered record is not bound to a local')
+        rec = cf.record_class(m, lc)  # type: ignore[arg-type]
+        en.form, en.rec = 'record', rec
+        bound = cf.bind_call(rec, e, qn)  # type: ignore[arg-type]
+        for f in rec.fields:
+            how, val = bound[f.name]
+            ctx.need(how != 'missing', f'{qn}: field `{f.name}` of {rec.cls.name} gets no value in `{pf.nsrc(e)}`')
+            if how == 'arg':
+                kind = 'value' if isinstance(val, ast.Name) and val.id == w else cf.eq_kind(m, pf.resolve_expr(fn, val), [w])  # type: ignore[arg-type]
+                isw = isinstance(val, ast.Name) and val.id == w
+            else:
+                kind, isw = cf.eq_kind(m, val, []), False
+            comps.append((f.name, f'{en.var}.{f.name}', kind, f.compare, isw))
+        eq_src = rec.eq_src
+        ident = rec.eq == 'identity'
+    # roles
+    weights = [c for c in comps if (c[1] == w if en.form == 'tuple' else c[4])]
+    ctx.need(len(weights) == 1, f'{qn}: registered element {[c[1] for c in comps]} does not carry the weight `{w}` exactly once')
+    others = [c for c in comps if c is not weights[0]]
+    evc = [c for c in others if c[1] in awaited] or [c for c in others if c[2] == 'identity'] or others
+    ctx.need(evc, f'{qn}: registered element has no event component')
+    roles = {c[0]: ('weight' if c is weights[0] else 'event' if c is evc[0] else 'other') for c in comps}
+    en.event_src = evc[0][1]
+    if en.form == 'tuple':
+        en.by_index = [roles[i] for i in range(len(comps))]
+    else:
+        en.by_attr = {k: v for k, v in roles.items()}
+        if en.rec.kind == 'namedtuple':  # type: ignore[union-attr]
+            en.by_index = [roles[f.name] for f in en.rec.fields]  # type: ignore[union-attr]
+    en.kinds = {c[0]: c[2] for c in comps}
+    # equality between the entries of two different acquire calls
+    compared = [c for c in comps if c[3]]
+    if ident:
+        en.unique, en.eq_why = True, eq_src
+    elif en.rec is not None and en.rec.eq == 'custom':
+        eqfn = [st for st in en.rec.cls.body if isinstance(st, ast.FunctionDef) and st.name == '__eq__'][0]
+        opaque = any(isinstance(x, (ast.Is, ast.IsNot, ast.Call)) for x in ast.walk(eqfn))
+        if compared and not opaque and all(c[2] == 'value' for c in compared):
+            en.unique = False
+        elif any(c[2] == 'identity' for c in compared) and not opaque:
+            en.unique = None
+        en.eq_why = eq_src
+    else:
+        if any(c[2] == 'identity' for c in compared):
+            en.unique = True
+        elif all(c[2] == 'value' for c in compared):
+            en.unique = False
+        en.eq_why = eq_src
+    return en
+
+
+def _under_event_set(m: pf.Module, stop: ast.AST, node: ast.AST, atom: str) -> str:
+    """Inside the clean-up block: 'set' -- `node` runs only when `atom` (`<event>.is_set()`) is true; 'unset' -- only when it is false;
+    'always' -- no condition encloses it; 'unknown' -- it is conditional on something that does not decide the atom."""
+    par = m.parents()
+    cur = node
+    res = 'always'
+    while cur is not stop and cur in par:
+        p = par[cur]
+        if isinstance(p, ast.If) and cur is not p.test:
+            lab = 'T' if any(cur is s for s in p.body) else 'F'
+            if af.implied_on_edge(p.test, lab, atom, True):
+                return 'set'
+            if af.implied_on_edge(p.test, lab, atom, False):
+                return 'unset'
+            res = 'unknown'
+        elif isinstance(p, (ast.While, ast.For, ast.IfExp, ast.BoolOp, ast.Try, ast.Match)) and not (isinstance(p, ast.Try) and any(cur is s for s in p.finalbody)):
+            res = 'unknown'
+        cur = p
+    return res
+
+
+def _acquire(ctx: Ctx, m: pf.Module, cls: ast.ClassDef, guards: List[af.Guarded]) -> Optional[cf.Entry]:
     qn = f'{CLS}.acquire'
     fn = af.method(m, cls, 'acquire')
     ctx.need(isinstance(fn, ast.AsyncFunctionDef), 'acquire is not a coroutine')
@@ -117,6 +306,7 @@ def _acquire(ctx: Ctx, m: pf.Module, cls: ast.ClassDef, guards: List[af.Guarded]
     params = [a.arg for a in fn.args.args]
     ctx.need(len(params) == 2, f'acquire parameters changed: {params}')
     w = params[1]
+    ctx.need(len(pf.assignments(fn).get(w, [])) == 1, f'{qn}: the weight parameter `{w}` is re-bound')
     gs = [g for g in guards if g.fnname == 'acquire']
     if len(gs) == 1:
         ctx.need(gs[0].w == w, f'{qn}: fast path decrements `{gs[0].w}`, not the requested weight `{w}`')
@@ -129,20 +319,17 @@ def _acquire(ctx: Ctx, m: pf.Module, cls: ast.ClassDef, guards: List[af.Guarded]
     R = regs[0]
     call = af.node_is_call(R, f'{EV}.add')
     ctx.need(call is not None and len(call.args) == 1, f'{qn}: registration call shape not recognised')
-    reg_arg = pf.resolve_expr(fn, call.args[0])  # `entry = (n, event); events.add(entry)` is the same registration
-    ctx.need(isinstance(reg_arg, ast.Tuple) and len(reg_arg.elts) == 2
-             and all(isinstance(e, ast.Name) for e in reg_arg.elts), f'{qn}: registered element is not a pair of names')
-    names = [e.id for e in reg_arg.elts]  # type: ignore[union-attr,attr-defined]
-    ctx.need(w in names, f'{qn}: registered element {names} does not carry the weight `{w}`')
-    evname = [x for x in names if x != w][0]
-    layout = ['weight' if x == w else 'event' for x in names]
+    aw_nodes = [n for n in af.stmt_nodes(cfg, pf.node_has_await) if af.direct(cfg, R, n)]
+    ctx.need(aw_nodes, f'{qn}: no await follows the registration (idiom not recognised)')
+    awaited = [pf.nsrc(a.value.func.value) for n in aw_nodes for a in ast.walk(n.ast) if isinstance(a, ast.Await) and isinstance(a.value, ast.Call)  # type: ignore[arg-type]
+               and isinstance(a.value.func, ast.Attribute) and a.value.func.attr == 'wait']
+    entry = _build_entry(ctx, m, fn, call.args[0], w, awaited)  # `entry = (n, event); events.add(entry)` is the same registration
+    evname = entry.event_src
     # the granted fast path must not also register
     if len(gs) == 1:
         ctx.check(not af.direct(cfg, gs[0].dec, R), 'R1', f'{F}::{qn}::fast path exclusive',
                   'the granted fast path also registers a waiter: the request is charged twice', m.path, R.lineno)
     # R3: awaits after the registration
-    aw_nodes = [n for n in af.stmt_nodes(cfg, pf.node_has_await) if af.direct(cfg, R, n)]
-    ctx.need(aw_nodes, f'{qn}: no await follows the registration (idiom not recognised)')
     for n in aw_nodes:
         for a in pf.walk_shallow(n.ast):
             if not isinstance(a, ast.Await):
@@ -150,7 +337,7 @@ def _acquire(ctx: Ctx, m: pf.Module, cls: ast.ClassDef, guards: List[af.Guarded]
             cons = f'{F}::{qn}::{pf.nsrc(a)}'
             blocks, _prop = af.cancel_blocks(m, fn, a)
             calls = [c for _, b in blocks for s in b for c in ast.walk(s) if isinstance(c, ast.Call)]
-            dereg = [c for c in calls if pf.dotted(c.func) in (f'{EV}.remove', f'{EV}.discard', f'{EV}.pop')]
+            dereg = [c for c in calls if pf.dotted(c.func) in (f'{EV}.remove', f'{EV}.discard', f'{EV}.pop', f'{EV}.clear')]
             hand = [c for c in calls if pf.dotted(c.func) == 'self.release'] + \
                    [s for _, b in blocks for st in b for s in ast.walk(st) if isinstance(s, ast.AugAssign) and isinstance(s.op, ast.Add) and pf.nsrc(s.target) == VAL]
             if not dereg and not hand:
@@ -162,23 +349,145 @@ def _acquire(ctx: Ctx, m: pf.Module, cls: ast.ClassDef, guards: List[af.Guarded]
                       m.path, a.lineno)
             ctx.check(bool(hand), 'R3', cons + '::hand back', 'the cancellation clean-up never hands back a weight that release had already granted '
                       '(cancel arriving between event.set() and the resumption of the waiter)', m.path, a.lineno)
+            if dereg:
+                _own_entry(ctx, m, fn, cons, entry, call.args[0], dereg, w, a)
+            if hand:
+                _hand_back(ctx, m, fn, cons, blocks, hand, w, evname, a)
     # wait is on the registered event
     wait_ok = any(isinstance(a, ast.Await) and pf.call_name(a) == f'{evname}.wait' for n in aw_nodes for a in ast.walk(n.ast))
     ctx.check(wait_ok, 'R1', f'{F}::{qn}::waits on registered event', f'the waiter does not wait on the event `{evname}` it registered: it resumes without a grant',
               m.path, R.lineno)
-    return layout
+    return entry
 
 
-def _manager_generator(ctx: Ctx, m: pf.Module, am: pf.FuncDef) -> None:
-    """acquire_manager written as an @asynccontextmanager generator: same obligations as the class form, on the generator's CFG (exception
+def _own_entry(ctx: Ctx, m: pf.Module, fn: pf.FuncDef, cons: str, entry: cf.Entry, reg_arg: ast.AST, dereg: List[ast.Call], w: str, a: ast.Await) -> None:
+    """The clean-up must take the cancelled waiter's OWN entry out of the list: (a) the removal is `remove/discard(<the registered entry>)`, and
+    (b) since those find the element by ==, no other waiter's entry may compare equal to it."""
+    qn = f'{CLS}.acquire'
+    witness = (f'history: W1 and W2 both call acquire({w}) with the same weight and queue; W2 is cancelled -> the clean-up takes W1\'s entry out: W1 is never '
+               f'woken, and W2\'s stale entry is later popped and charged by release for a waiter that is gone, so that weight is never returned')
+    for c in dereg:
+        meth = c.func.attr  # type: ignore[attr-defined]
+        c2 = cons + '::deregister::own entry'
+        if meth in ('pop', 'clear'):
+            ctx.bad('R3', c2, f'the cancellation clean-up removes by position (`{pf.nsrc(c)}`), not the cancelled waiter\'s own entry: with another waiter queued in front '
+                    f'that one is dropped instead. ' + witness, m.path, c.lineno)
+            continue
+        ctx.need(len(c.args) == 1 and not c.keywords, f'{qn}: `{pf.nsrc(c)}` not recognised')
+        x = c.args[0]
+        same = (isinstance(x, ast.Name) and isinstance(reg_arg, ast.Name) and x.id == reg_arg.id and len(pf.assignments(fn).get(x.id, [])) == 1) \
+            or pf.resolve_expr(fn, x) is entry.expr
+        if not same:
+            rx = pf.resolve_expr(fn, x)
+            fresh = [y for y in ast.walk(rx) if isinstance(y, ast.Call) and cf.eq_kind(m, y, [w]) == 'identity']
+            structurally = isinstance(rx, ast.Tuple) and isinstance(entry.expr, ast.Tuple) and [pf.nsrc(z) for z in rx.elts] == [pf.nsrc(z) for z in entry.expr.elts] \
+                and all(isinstance(z, ast.Name) and len(pf.assignments(fn).get(z.id, [])) == 1 for z in rx.elts)
+            if structurally:
+                same = True
+            elif fresh:
+                ctx.bad('R3', c2, f'`{pf.nsrc(c)}` looks for an element built around a NEW `{pf.nsrc(fresh[0])}`, which equals no registered entry: the removal fails '
+                        f'(ValueError) / removes nothing and the cancelled waiter stays queued; a later release charges its weight for nobody', m.path, c.lineno)
+                continue
+            else:
+                raise AnalysisError(f'{qn}: cannot relate the removed element `{pf.nsrc(x)}` to the registered entry `{pf.nsrc(reg_arg)}`')
+        ctx.ok('R3', c2, {'removes': pf.nsrc(x)})
+        c3 = cons + '::deregister::entry equality'
+        ctx.need(entry.unique is not None, f'{qn}: cannot decide whether two waiters\' entries can compare equal ({entry.eq_why}; component kinds {entry.kinds})')
+        ctx.check(bool(entry.unique), 'R3', c3,
+                  f'`{pf.nsrc(c)}` finds the element by ==, but the entries of two different waiters with the same weight compare EQUAL ({entry.eq_why}; no compared '
+                  f'component is unique to the waiter): the first equal entry is removed, not the cancelled waiter\'s own. ' + witness, m.path, c.lineno,
+                  detail={'equality': entry.eq_why, 'kinds': entry.kinds})
+
+
+def _hand_back(ctx: Ctx, m: pf.Module, fn: pf.FuncDef, cons: str, blocks, hand: List[ast.AST], w: str, evname: str, a: ast.Await) -> None:
+    """A weight is handed back on cancellation only if release had granted it (the event is set), and it is the waiter's weight."""
+    qn = f'{CLS}.acquire'
+    atom = f'{evname}.is_set()'
+    for h in hand:
+        blk = [b for _, b in blocks if any(h is y for st in b for y in ast.walk(st))][0]
+        holder = m.parents()[blk[0]]
+        g = _under_event_set(m, holder, h, atom)
+        c2 = cons + '::hand back::only if granted'
+        ctx.need(g != 'unknown', f'{qn}: the hand-back `{pf.nsrc(h)}` is conditional on something other than `{atom}` (not recognised)')
+        ctx.check(g == 'set', 'R3', c2, f'`{pf.nsrc(h)}` runs on cancellation ' + ('when the event is NOT set' if g == 'unset' else 'whether or not the event is set')
+                  + f': a waiter cancelled while still queued (never granted) gives back {w} it never took -- {VAL} exceeds the capacity and later acquirers are '
+                  f'admitted beyond it', m.path, getattr(h, 'lineno', a.lineno))
+        amount = h.args[0] if isinstance(h, ast.Call) and len(h.args) == 1 else h.value if isinstance(h, ast.AugAssign) else None
+        ctx.need(amount is not None, f'{qn}: hand-back `{pf.nsrc(h)}` not recognised')
+        r = _resolve_local(fn, amount)  # type: ignore[arg-type]
+        c3 = cons + '::hand back::same weight'
+        if pf.nsrc(r) == w or pf.nsrc(r) == f'{evname.rsplit(".", 1)[0]}.{w}':
+            ctx.ok('R3', c3, pf.nsrc(amount))
+        elif isinstance(r, ast.Constant):
+            ctx.bad('R3', c3, f'the clean-up hands back `{pf.nsrc(amount)}`, not the weight `{w}` that release charged for this waiter', m.path, a.lineno)
+        else:
+            raise AnalysisError(f'{qn}: cannot relate the handed-back amount `{pf.nsrc(amount)}` to the weight `{w}`')
+
+
+_DETACH = {'asyncio.ensure_future', 'asyncio.create_task', 'asyncio.shield', 'asyncio.Task', 'asyncio.tasks.ensure_future', 'asyncio.tasks.create_task'}
+
+
+def _acquire_sites(ctx: Ctx, m: pf.Module, fn: pf.FuncDef, recv: str, where: str) -> None:
+    """R5 for every `<recv>.acquire(...)` call in fn: the coroutine is awaited directly, so that cancelling the task that wants the weight raises
+    CancelledError INSIDE acquire (whose clean-up deregisters the waiter).  Wrapped in ensure_future / create_task / shield the acquire runs in a task
+    of its own which a cancellation of the caller does not reach."""
+    par = m.parents()
+    for c in ast.walk(fn):
+        if not (isinstance(c, ast.Call) and pf.dotted(c.func) == f'{recv}.acquire') or m.enclosing_func(c) is not fn:
+            continue
+        cons = f'{where}::{pf.nsrc(c)}::awaited by the holder'
+        p = par.get(c)
+        if isinstance(p, ast.Await):
+            ctx.ok('R5', cons, 'awaited directly')
+            continue
+        origin = cf.origin(m, p.func) if isinstance(p, ast.Call) else None
+        detach = isinstance(p, ast.Call) and any(x is c for x in p.args) and (origin in _DETACH or (isinstance(p.func, ast.Attribute) and p.func.attr in ('create_task', 'ensure_future')))
+        ctx.need(detach, f'{where}: `{pf.nsrc(p) if p is not None else pf.nsrc(c)}`: the acquire coroutine is neither awaited directly nor handed to ensure_future/create_task/shield '
+                 f'(wrapper not analysed)')
+        st = par.get(p)
+        task = st.targets[0].id if isinstance(st, ast.Assign) and len(st.targets) == 1 and isinstance(st.targets[0], ast.Name) and st.value is p else None
+        cfg = pf.cfg(fn)
+        spawn = [n for n in cfg.nodes if n.ast is not None and any(x is p for x in ast.walk(n.ast))]
+        ctx.need(len(spawn) >= 1, f'{where}: cannot locate `{pf.nsrc(p)}` in the CFG')
+        S = spawn[0]
+        awaits = [(n, x) for n in af.stmt_nodes(cfg, pf.node_has_await) if n is S or af.direct(cfg, S, n) for x in pf.walk_shallow(n.ast) if isinstance(x, ast.Await)]
+        ctx.need(awaits, f'{where}: `{pf.nsrc(p)}` is never awaited (not analysed)')
+        uncovered = []
+        for n, x in awaits:
+            blocks, _ = af.cancel_blocks(m, fn, x)
+            calls = [pf.dotted(k.func) for _, blk in blocks for s_ in blk for k in ast.walk(s_) if isinstance(k, ast.Call)]
+            if task is None or f'{task}.cancel' not in calls:
+                uncovered.append(x)
+        if uncovered:
+            u = uncovered[0]
+            on_task = isinstance(u.value, ast.Name) and u.value.id == task
+            hist = (f'history: the inner task is granted the weight and finishes; before the waiting task resumes from `{pf.nsrc(u)}` it is cancelled -> CancelledError is raised there '
+                    f'with the weight taken, and nobody calls release(n)' if on_task else
+                    f'history: the capacity is exhausted, C enters and its inner acquire queues; C is cancelled -> CancelledError leaves `{pf.nsrc(u)}` but the inner acquire stays in '
+                    f'the waiter list; a later release grants it (value -= n) and nobody ever calls release(n) for it')
+            ctx.bad('R5', cons, f'`{pf.nsrc(st if task else p)}` runs the acquire in a task of its own, outside the clean-up of acquire: when the waiting task is cancelled at '
+                    f'`{pf.nsrc(u)}` no except/finally there cancels the inner task and returns a weight it was granted ({task or "<task>"}.cancel() / release). {hist} -- the cancelled '
+                    f'waiter has consumed capacity for good', m.path, c.lineno)
+        else:
+            raise AnalysisError(f'{where}: detached acquire `{pf.nsrc(p)}` with an explicit {task}.cancel() on cancellation: the grant/cancel race is not analysed')
+
+
+def _manager_generator(ctx: Ctx, m: pf.Module, am: pf.FuncDef, file: str = F, owner: str = CM, cons: str = f'{F}::{CLS}.acquire_manager', recv: Optional[str] = None) -> Optional[str]:
+    """A context manager written as an @asynccontextmanager generator: same obligations as the class form, on the generator's CFG (exception
     edges included): the release is reached only after the acquire COMPLETED (an acquire inside the `try` whose `finally` releases gives the
     weight back although it was never granted -- cancellation while queued, or acquire's own hand-back), every exit after the acquire releases
-    exactly once, with the weight that was acquired, and nothing suspends between the grant and the protected region."""
-    cons = f'{F}::{CLS}.acquire_manager'
+    exactly once, with the weight that was acquired, and nothing suspends between the grant and the protected region.  Returns the weight parameter."""
     ctx.need(isinstance(am, ast.AsyncFunctionDef), f'{cons}: generator form is not `async def`')
     params = [a.arg for a in am.args.args]
-    ctx.need(len(params) == 2, f'{cons}: parameters changed: {params}')
-    recv, w = params
+    if recv is None:
+        ctx.need(len(params) == 2, f'{cons}: parameters changed: {params}')
+        recv = params[0]
+    _acquire_sites(ctx, m, am, recv, cons)
+    wcands = [pf.nsrc(c.args[0]) for c in ast.walk(am) if isinstance(c, ast.Call) and pf.dotted(c.func) == f'{recv}.acquire' and len(c.args) == 1]
+    others = [x for x in params if x != recv]
+    w = wcands[0] if wcands and wcands[0] in others else (others[0] if len(others) == 1 else None)
+    ctx.need(w is not None, f'{cons}: cannot tell which parameter of {params} is the weight')
+    ctx.need(len(pf.assignments(am).get(w, [])) == 1 and len(pf.assignments(am).get(recv, [])) == 1, f'{cons}: `{w}` / `{recv}` re-bound inside the context manager')
     cfg = pf.cfg(am)
     ys = [n for n in cfg.nodes if n.ast is not None and n.kind in ('stmt', 'return') and any(isinstance(x, (ast.Yield, ast.YieldFrom)) for x in pf.walk_shallow(n.ast))]
     ctx.need(len(ys) == 1, f'{cons}: expected exactly one yield in the context manager, found {len(ys)}')
@@ -191,10 +500,10 @@ def _manager_generator(ctx: Ctx, m: pf.Module, am: pf.FuncDef) -> None:
         ok = c is not None and [pf.nsrc(a) for a in c.args] == [w] and not c.keywords
         later = [n for n in af.stmt_nodes(cfg, pf.node_has_await) if n is not acq[0] and n is not Y and af.direct(cfg, acq[0], n)]
         ok = ok and not later
-    ctx.check(ok, 'R2', f'{F}::{CM}.__aenter__', f'acquire_manager does not `await {recv}.acquire({w})` exactly once before its yield as its only suspension point', m.path, am.lineno)
+    ctx.check(ok, 'R2', f'{file}::{owner}.__aenter__', f'the context manager does not `await {recv}.acquire({w})` exactly once before its yield as its only suspension point', m.path, am.lineno)
     if not (len(acq) == 1 and rel):
-        ctx.check(bool(rel), 'R2', f'{F}::{CM}.__aexit__', 'acquire_manager never releases the acquired weight', m.path, am.lineno)
-        return
+        ctx.check(bool(rel), 'R2', f'{file}::{owner}.__aexit__', 'the context manager never releases the acquired weight', m.path, am.lineno)
+        return w
     A = acq[0]
     # (a) release only after a completed acquire: no path to a release that skips the acquire or leaves it through its exception edge
     skip = cfg.path_avoiding(cfg.entry, lambda n: any(n is r for r in rel), lambda n: n is A)
@@ -219,8 +528,67 @@ def _manager_generator(ctx: Ctx, m: pf.Module, am: pf.FuncDef) -> None:
         msg = f'the released weight is not the acquired `{w}`'
     elif pre:
         msg = f'`{pre[0].text()}` suspends before the release: a cancellation there skips it'
-    ctx.check(msg is None, 'R2', f'{F}::{CM}.__aexit__', msg or '', m.path, rel[0].lineno)
-    ctx.ok('R2', f'{F}::{CLS}.acquire_manager', '@asynccontextmanager generator form')
+    ctx.check(msg is None, 'R2', f'{file}::{owner}.__aexit__', msg or '', m.path, rel[0].lineno)
+    ctx.ok('R2', cons, '@asynccontextmanager generator form')
+    return w
+
+
+def _manager_class(ctx: Ctx, m: pf.Module, cm: ast.ClassDef, file: str, sem_param: Optional[str] = None) -> str:
+    """A context-manager class holding (semaphore, weight): __aenter__ acquires the stored weight once, directly awaited, as its last suspension
+    point; __aexit__ releases the same stored weight once, unconditionally, before any suspension point.  Returns the constructor parameter that is the weight."""
+    name = cm.name
+    init = af.method(m, cm, '__init__')
+    a = init.args
+    ctx.need(not (a.vararg or a.kwarg or a.kwonlyargs or a.posonlyargs), f'{name}.__init__: parameter kinds not analysed')
+    params = [x.arg for x in a.args]
+    if sem_param is None:
+        ctx.need(len(params) == 3, f'{name}.__init__ parameters changed: {params}')
+        sem_param = params[1]
+    fields = {}
+    for st in init.body:
+        tgt = st.targets[0] if isinstance(st, ast.Assign) and len(st.targets) == 1 else st.target if isinstance(st, ast.AnnAssign) else None
+        val = getattr(st, 'value', None)
+        if isinstance(tgt, ast.Attribute) and isinstance(val, ast.Name):
+            fields[pf.nsrc(tgt)] = val.id
+    sem_f = [k for k, v in fields.items() if v == sem_param]
+    ctx.need(len(sem_f) == 1, f'{name}.__init__ does not store the semaphore `{sem_param}` in exactly one attribute')
+    en = af.method(m, cm, '__aenter__')
+    ex = af.method(m, cm, '__aexit__')
+    used = [pf.nsrc(c.args[0]) for c in ast.walk(cm) if isinstance(c, ast.Call) and pf.dotted(c.func) in (f'{sem_f[0]}.acquire', f'{sem_f[0]}.release') and len(c.args) == 1]
+    wf = [k for k in fields if k in used and fields[k] != sem_param and fields[k] in params]
+    w_f = wf[:1] or [k for k, v in fields.items() if len(params) == 3 and v == params[2]]
+    ctx.need(len(w_f) == 1, f'{name}.__init__ does not store (semaphore, weight) in two attributes')
+    for st in ast.walk(cm):
+        if isinstance(st, ast.Attribute) and isinstance(st.ctx, (ast.Store, ast.Del)) and pf.nsrc(st) in (sem_f[0], w_f[0]):
+            ctx.need(m.enclosing_func(st) is init, f'{name}: {pf.nsrc(st)} reassigned outside __init__')
+    for fn_ in (st for st in cm.body if isinstance(st, (ast.FunctionDef, ast.AsyncFunctionDef))):
+        _acquire_sites(ctx, m, fn_, sem_f[0], f'{file}::{name}.{fn_.name}')
+        if fn_ is not en and fn_ is not ex:
+            bad_use = [c for c in ast.walk(fn_) if isinstance(c, ast.Call) and pf.dotted(c.func) in (f'{sem_f[0]}.acquire', f'{sem_f[0]}.release')]
+            ctx.need(not bad_use, f'{name}.{fn_.name}: acquires/releases outside __aenter__/__aexit__ (not analysed)')
+    ctx.need(isinstance(en, ast.AsyncFunctionDef) and isinstance(ex, ast.AsyncFunctionDef), f'{name}: __aenter__/__aexit__ are not coroutines')
+    cfg = pf.cfg(en)
+    acq = af.stmt_nodes(cfg, lambda n: any(isinstance(x, ast.Await) and pf.call_name(x) == f'{sem_f[0]}.acquire' for x in ast.walk(n.ast)))
+    ok = len(acq) == 1 and cfg.dominated_by(cfg.exit, lambda n: n is acq[0]) and not af.direct(cfg, acq[0], acq[0])
+    if ok:
+        c = af.node_is_call(acq[0], f'{sem_f[0]}.acquire')
+        ok = c is not None and [pf.nsrc(a) for a in c.args] == [w_f[0]] and not c.keywords
+        # no other suspension point after the acquire inside __aenter__ (a cancel there would skip __aexit__)
+        later = [n for n in af.stmt_nodes(cfg, pf.node_has_await) if n is not acq[0] and af.direct(cfg, acq[0], n)]
+        ok = ok and not later
+    ctx.check(ok, 'R2', f'{file}::{name}.__aenter__', f'__aenter__ does not `await {sem_f[0]}.acquire({w_f[0]})` exactly once on every path as its last suspension point',
+              m.path, en.lineno)
+    cfg = pf.cfg(ex)
+    rel = af.stmt_nodes(cfg, lambda n: af.node_is_call(n, f'{sem_f[0]}.release') is not None)
+    ok = len(rel) == 1 and cfg.dominated_by(cfg.exit, lambda n: n is rel[0]) and not af.direct(cfg, rel[0], rel[0])
+    if ok:
+        c = af.node_is_call(rel[0], f'{sem_f[0]}.release')
+        ok = c is not None and [pf.nsrc(a) for a in c.args] == [w_f[0]] and not c.keywords
+        pre = [n for n in cfg.nodes if n.ast is not None and pf.node_has_await(n) and af.direct(cfg, n, rel[0])]
+        ok = ok and not pre
+    ctx.check(ok, 'R2', f'{file}::{name}.__aexit__', f'__aexit__ does not release exactly the acquired weight `{w_f[0]}` once, unconditionally (normal, error and '
+              f'cancellation exits) and before any suspension point (found {[n.text() for n in rel]})', m.path, ex.lineno)
+    return fields[w_f[0]]
 
 
 def _manager(ctx: Ctx, m: pf.Module) -> None:
@@ -233,39 +601,7 @@ def _manager(ctx: Ctx, m: pf.Module) -> None:
     init = af.method(m, cm, '__init__')
     params = [a.arg for a in init.args.args]
     ctx.need(len(params) == 3, f'{CM}.__init__ parameters changed: {params}')
-    fields = {}
-    for st in init.body:
-        if isinstance(st, ast.Assign) and len(st.targets) == 1 and isinstance(st.targets[0], ast.Attribute) and isinstance(st.value, ast.Name):
-            fields[pf.nsrc(st.targets[0])] = st.value.id
-    sem_f = [k for k, v in fields.items() if v == params[1]]
-    w_f = [k for k, v in fields.items() if v == params[2]]
-    ctx.need(len(sem_f) == 1 and len(w_f) == 1, f'{CM}.__init__ does not store (semaphore, weight) in two attributes')
-    for st in ast.walk(cm):
-        if isinstance(st, ast.Attribute) and isinstance(st.ctx, (ast.Store, ast.Del)) and pf.nsrc(st) in (sem_f[0], w_f[0]):
-            ctx.need(m.enclosing_func(st) is init, f'{CM}: {pf.nsrc(st)} reassigned outside __init__')
-    en = af.method(m, cm, '__aenter__')
-    ex = af.method(m, cm, '__aexit__')
-    cfg = pf.cfg(en)
-    acq = af.stmt_nodes(cfg, lambda n: any(isinstance(x, ast.Await) and pf.call_name(x) == f'{sem_f[0]}.acquire' for x in ast.walk(n.ast)))
-    ok = len(acq) == 1 and cfg.dominated_by(cfg.exit, lambda n: n is acq[0]) and not af.direct(cfg, acq[0], acq[0])
-    if ok:
-        c = af.node_is_call(acq[0], f'{sem_f[0]}.acquire')
-        ok = c is not None and [pf.nsrc(a) for a in c.args] == [w_f[0]] and not c.keywords
-        # no other suspension point after the acquire inside __aenter__ (a cancel there would skip __aexit__)
-        later = [n for n in af.stmt_nodes(cfg, pf.node_has_await) if n is not acq[0] and af.direct(cfg, acq[0], n)]
-        ok = ok and not later
-    ctx.check(ok, 'R2', f'{F}::{CM}.__aenter__', f'__aenter__ does not `await {sem_f[0]}.acquire({w_f[0]})` exactly once on every path as its last suspension point',
-              m.path, en.lineno)
-    cfg = pf.cfg(ex)
-    rel = af.stmt_nodes(cfg, lambda n: af.node_is_call(n, f'{sem_f[0]}.release') is not None)
-    ok = len(rel) == 1 and cfg.dominated_by(cfg.exit, lambda n: n is rel[0]) and not af.direct(cfg, rel[0], rel[0])
-    if ok:
-        c = af.node_is_call(rel[0], f'{sem_f[0]}.release')
-        ok = c is not None and [pf.nsrc(a) for a in c.args] == [w_f[0]] and not c.keywords
-        pre = [n for n in cfg.nodes if n.ast is not None and pf.node_has_await(n) and af.direct(cfg, n, rel[0])]
-        ok = ok and not pre
-    ctx.check(ok, 'R2', f'{F}::{CM}.__aexit__', f'__aexit__ does not release exactly the acquired weight `{w_f[0]}` once, unconditionally (normal, error and '
-              f'cancellation exits) and before any suspension point (found {[n.text() for n in rel]})', m.path, ex.lineno)
+    _manager_class(ctx, m, cm, F)
     cls = m.cls(CLS)
     am = af.method(m, cls, 'acquire_manager')
     body = af.body_no_doc(am)
@@ -285,18 +621,102 @@ def _upper(m: pf.Module, e: ast.AST) -> Optional[Fraction]:
     return None
 
 
+def _bind_param(fn: pf.FuncDef, call: ast.Call, node: ast.AST, skip_self: bool) -> Optional[str]:
+    """Name of the parameter of fn that receives the argument expression `node` of `call`."""
+    a = fn.args
+    if a.vararg or a.kwarg or a.posonlyargs or any(isinstance(x, ast.Starred) for x in call.args) or any(k.arg is None for k in call.keywords):
+        return None
+    names = [x.arg for x in a.args][1 if skip_self else 0:]
+    for i, x in enumerate(call.args):
+        if x is node:
+            return names[i] if i < len(names) else None
+    for k in call.keywords:
+        if k.value is node:
+            return k.arg if k.arg in names + [x.arg for x in a.kwonlyargs] else None
+    return None
+
+
+def _arg_for(fn: pf.FuncDef, call: ast.Call, pname: str, skip_self: bool) -> Optional[ast.AST]:
+    names = [x.arg for x in fn.args.args][1 if skip_self else 0:]
+    if pname in names and names.index(pname) < len(call.args):
+        return call.args[names.index(pname)]
+    for k in call.keywords:
+        if k.arg == pname:
+            return k.value
+    return None
+
+
 def _copier(ctx: Ctx) -> None:
+    """Closure over every expression of copier.py that carries the transfer semaphore: the attribute `xfer_sema`, parameters it is handed to
+    (constructors / functions of this module) and the attributes those are stored in.  Every use must be construction, hand-over, a read of
+    value/max, or an acquisition whose release is guaranteed: `async with X.acquire_manager(w)`, `async with K(X, w, ...)` for a context-manager class /
+    @asynccontextmanager function of this module (analysed like _AcquireManager), or the manual `await X.acquire(w)` + try/finally."""
     m = pf.load(CP)
     par = m.parents()
+    attrs = {'xfer_sema'}
+    fparams: set = set()          # (function node, parameter name) that receive the semaphore
+    managers: dict = {}           # id(class/function node) -> (node, sem param)
+    funcs_by_name = {st.name: st for st in m.tree.body if isinstance(st, (ast.FunctionDef, ast.AsyncFunctionDef))}
+
+    def sem_nodes():
+        for n in ast.walk(m.tree):
+            if isinstance(n, ast.Attribute) and n.attr in attrs:
+                yield n
+            elif isinstance(n, ast.Name) and isinstance(n.ctx, ast.Load) and any(m.enclosing_func(n) is f and n.id == p_ for f, p_ in fparams):
+                yield n
+
+    def callee_of(call: ast.Call):
+        lc = cf.local_class(m, call.func)
+        if lc is not None:
+            init = [st for st in lc.body if isinstance(st, ast.FunctionDef) and st.name == '__init__']
+            return (lc, init[0], True) if init else None
+        if isinstance(call.func, ast.Name) and call.func.id in funcs_by_name:
+            return (funcs_by_name[call.func.id], funcs_by_name[call.func.id], False)
+        return None
+
+    changed = True
+    while changed:
+        changed = False
+        for n in list(sem_nodes()):
+            p = par.get(n)
+            if isinstance(p, ast.Call) and (any(a is n for a in p.args) or any(k.value is n for k in p.keywords)):
+                tgt = callee_of(p)
+                if tgt is None:
+                    continue
+                owner, fn_, skip = tgt
+                pn = _bind_param(fn_, p, n, skip)
+                if pn is not None and (fn_, pn) not in fparams:
+                    fparams.add((fn_, pn))
+                    changed = True
+            elif isinstance(n, ast.Name) and isinstance(p, (ast.Assign, ast.AnnAssign)) and p.value is n:
+                t = p.targets[0] if isinstance(p, ast.Assign) and len(p.targets) == 1 else getattr(p, 'target', None)
+                if isinstance(t, ast.Attribute) and t.attr not in attrs:
+                    attrs.add(t.attr)
+                    changed = True
+
+    def is_cm_class(c: ast.AST) -> bool:
+        return isinstance(c, ast.ClassDef) and {'__aenter__', '__aexit__'} <= {st.name for st in c.body if isinstance(st, (ast.FunctionDef, ast.AsyncFunctionDef))}
+
+    def is_cm_func(f: ast.AST) -> bool:
+        return isinstance(f, (ast.FunctionDef, ast.AsyncFunctionDef)) and any(d.split('.')[-1] == 'asynccontextmanager' for d in pf.decorator_names(f))
+
     caps: List[Fraction] = []
     weights = []
-    for n in ast.walk(m.tree):
-        if not (isinstance(n, ast.Attribute) and n.attr == 'xfer_sema'):
-            continue
+    analysed: dict = {}
+
+    def with_site(call: ast.Call, q: str, lineno: int) -> bool:
+        item = par.get(call)
+        stmt = par.get(item) if item is not None else None
+        return isinstance(item, ast.withitem) and item.context_expr is call and isinstance(stmt, ast.AsyncWith)
+
+    for n in list(sem_nodes()):
         fn = m.enclosing_func(n)
         q = m.qualname(fn) if fn is not None else '<module>'
         p = par.get(n)
-        if isinstance(n.ctx, ast.Store):
+        encl_cls = par.get(fn) if fn is not None else None
+        in_manager = (is_cm_class(encl_cls) and any((st, pn) in fparams for st in encl_cls.body if isinstance(st, ast.FunctionDef) and st.name == '__init__' for pn in [x.arg for x in st.args.args])) \
+            or (fn is not None and is_cm_func(fn) and any(f is fn for f, _ in fparams))
+        if isinstance(n, ast.Attribute) and isinstance(n.ctx, ast.Store):
             val = getattr(p, 'value', None)
             cons = f'{CP}::{q}::{pf.nsrc(p)}'
             if isinstance(val, ast.Name) and fn is not None and val.id in [a.arg for a in fn.args.args]:
@@ -310,13 +730,13 @@ def _copier(ctx: Ctx) -> None:
                 ctx.need(isinstance(val, ast.Call), f'{cons}: unrecognised initialisation of the transfer semaphore')
                 ctx.bad('R2', cons, f'the transfer semaphore is built by `{pf.nsrc(val)}`, not by {CLS}(capacity): the analysed semaphore is not the one in use',
                         m.path, n.lineno)
+        elif isinstance(n, ast.Name) and isinstance(p, (ast.Assign, ast.AnnAssign)) and p.value is n:
+            continue  # `self.X = param`: reported at the Store side
         elif isinstance(p, ast.Attribute) and p.value is n and p.attr == 'acquire_manager':
             call = par.get(p)
             ctx.need(isinstance(call, ast.Call) and call.func is p, f'{CP}::{q}: acquire_manager is not called')
-            item = par.get(call)
-            stmt = par.get(item) if item is not None else None
             cons = f'{CP}::{q}::{pf.nsrc(call)}'
-            if isinstance(item, ast.withitem) and item.context_expr is call and isinstance(stmt, ast.AsyncWith):
+            if with_site(call, q, n.lineno):  # type: ignore[arg-type]
                 ctx.check(len(call.args) == 1 and not call.keywords, 'R2', cons, 'acquire_manager is not called with exactly the weight', m.path, n.lineno)  # type: ignore[union-attr]
                 if len(call.args) == 1:  # type: ignore[union-attr]
                     weights.append((q, call.args[0], n.lineno))  # type: ignore[union-attr]
@@ -325,12 +745,42 @@ def _copier(ctx: Ctx) -> None:
                         f'on every exit', m.path, n.lineno)
                 if call.args:  # type: ignore[union-attr]
                     weights.append((q, call.args[0], n.lineno))  # type: ignore[union-attr]
-        elif isinstance(p, ast.Call) and any(a is n for a in p.args):
-            ctx.ok('R2', f'{CP}::{q}::{pf.nsrc(p.func)}(..., {pf.nsrc(n)}, ...)', 'handed over')
+        elif isinstance(p, ast.Call) and (any(a is n for a in p.args) or any(k.value is n for k in p.keywords)):
+            tgt = callee_of(p)
+            ctx.need(tgt is not None, f'{CP}::{q}: the transfer semaphore is handed to `{pf.nsrc(p.func)}`, which is not a class/function of this module (uses there are not analysed)')
+            owner, fn_, skip = tgt  # type: ignore[misc]
+            pn = _bind_param(fn_, p, n, skip)
+            ctx.need(pn is not None, f'{CP}::{q}: cannot bind the semaphore argument of `{pf.nsrc(p)}` to a parameter')
+            cons = f'{CP}::{q}::{pf.nsrc(p.func)}(..., {pf.nsrc(n)}, ...)'
+            if is_cm_class(owner) or is_cm_func(owner):
+                # a context manager of this module wrapping the semaphore: analysed once like _AcquireManager, every construction must be an `async with`
+                if id(owner) not in analysed:
+                    if is_cm_class(owner):
+                        analysed[id(owner)] = _manager_class(ctx, m, owner, CP, pn)  # type: ignore[arg-type]
+                    else:
+                        analysed[id(owner)] = _manager_generator(ctx, m, owner, CP, owner.name, f'{CP}::{owner.name}', pn)  # type: ignore[arg-type,union-attr]
+                wpar = analysed[id(owner)]
+                if with_site(p, q, n.lineno):
+                    warg = _arg_for(fn_, p, wpar, skip)
+                    ctx.check(warg is not None, 'R2', cons, f'`{pf.nsrc(p)}` does not pass the weight `{wpar}`', m.path, n.lineno)
+                    if warg is not None:
+                        weights.append((q, warg, n.lineno))
+                else:
+                    ctx.bad('R2', cons, f'`{pf.nsrc(p)}` is not the context expression of an `async with`: nothing is acquired / the weight is not returned on every exit',
+                            m.path, n.lineno)
+            else:
+                ctx.ok('R2', cons, 'handed over')
+        elif isinstance(p, ast.Attribute) and p.value is n and p.attr in ('value', 'max') and isinstance(p.ctx, ast.Load):
+            continue  # read-only look at the counters
+        elif in_manager and isinstance(p, ast.Attribute) and p.value is n and p.attr in ('acquire', 'release'):
+            continue  # decided by the context-manager analysis above
         elif isinstance(p, ast.Attribute) and p.value is n and p.attr == 'acquire' and isinstance(par.get(p), ast.Call):
             # manual acquire: must be a statement `await X.acquire(w)` directly followed by try/finally releasing the same weight
             call = par[p]
             cons = f'{CP}::{q}::{pf.nsrc(call)}'
+            _acquire_sites(ctx, m, fn, pf.nsrc(n), f'{CP}::{q}')  # type: ignore[arg-type]
+            if any(f_.rule == 'R5' and f_.key.startswith(f'{CP}::{q}::') for f_ in ctx.findings):
+                continue
             aw = par.get(call)
             stmt = par.get(aw) if isinstance(aw, ast.Await) else None
             ctx.need(isinstance(stmt, ast.Expr), f'{cons}: manual acquire is not a plain `await ....acquire(w)` statement')
@@ -360,8 +810,10 @@ def _copier(ctx: Ctx) -> None:
                 cur = pp
             ctx.need(inside_finally, f'{CP}::{q}: manual `{pf.nsrc(par[p])}` outside a finally block is not analysed')
         else:
-            raise AnalysisError(f'{CP}::{q}: unrecognised use of xfer_sema: `{pf.nsrc(p) if p is not None else pf.nsrc(n)}` (manual acquire/release pairing is not analysed)')
+            raise AnalysisError(f'{CP}::{q}: unrecognised use of the transfer semaphore: `{pf.nsrc(p) if p is not None else pf.nsrc(n)}` (manual acquire/release pairing is not analysed)')
     ctx.need(len(caps) == 1, f'{CP}: expected one construction of the transfer semaphore, found {len(caps)}')
+    if any(f_.rule in ('R2', 'R5') and f_.key.startswith(CP) for f_ in ctx.findings) and not weights:
+        ctx.min_counts['R4'] = 0   # the acquisition sites themselves are reported as broken: nothing to bound
     for q, wexpr, line in weights:
         up = _upper(m, wexpr)
         cons = f'{CP}::{q}::weight {pf.nsrc(wexpr)}'
@@ -385,8 +837,11 @@ def run(ctx: Ctx) -> None:
                    'writer/reader tuple layout agrees', 8)
     ctx.rule('R2', '_AcquireManager acquires/releases the same weight, releases unconditionally; release gives the weight back; '
                    'all copier uses go through `async with acquire_manager(w)`', 9)
-    ctx.rule('R3', 'an await that follows a waiter registration deregisters the waiter / hands back a granted weight when it raises CancelledError', 1)
+    ctx.rule('R3', 'an await that follows a waiter registration deregisters the waiter\'s own entry (found by ==: entries of different waiters never compare equal) / '
+                   'hands back exactly a granted weight when it raises CancelledError', 6)
     ctx.rule('R4', 'weights requested by the copier are bounded by the capacity', 2)
+    ctx.rule('R5', 'every acquire coroutine is awaited directly by the task that wants the weight (not detached through ensure_future / create_task / shield), '
+                   'so that cancelling that task reaches the waiter clean-up inside acquire', 1)
     ctx.assume('asyncio runs one coroutine at a time and switches only at await; Task.cancel() raises CancelledError at the pending await, '
                'also when the awaited event has already been set but the task has not resumed yet')
     m = pf.load(F)
